@@ -198,8 +198,76 @@ func runC16b(t *testing.T, run *mc.Run) int {
 			}
 		}
 	}
+	// another session's event is being written (slowly) at the very instant a cleanup is due: the cleanup has to
+	// wait for the correlator, not skip its round
+	for _, first := range []string{"login", "session"} {
+		n++
+		dropped++
+		var msg string
+		bubble(t, func() {
+			r := startRead(0)
+			defer r.stop()
+			vsleep(50 * time.Second)
+			lg := mkLogin(bindPID, "1")
+			sessLines := []string{
+				bindLines("7"),
+				auditgen.Simple("USER_START", 1700000021, 3001, "7", "4242", "success").Recs[0].Line,
+				auditgen.Simple("USER_ACCT", 1700000022, 3002, "7", "4242", "success").Recs[0].Line,
+			}
+			if first == "login" {
+				r.offerLogin(lg)
+			} else {
+				for _, l := range sessLines {
+					r.offerLine(l + "\n")
+				}
+			}
+			t0 := time.Now()
+			// a correlated session B, busy: one of its events is in the middle of being written from t=118 s to
+			// t=122 s, i.e. across the cleanup due at t=120 s (when the pending half is 70 s old)
+			r.offerLogin(mkLogin(4343, "2"))
+			r.offerLine(auditgen.Simple("LOGIN", 1700000030, 3050, "8", "4343", "1").Recs[0].Line + "\n")
+			vsleep(118*time.Second - time.Since(t0) - 50*time.Second)
+			gate := make(chan error)
+			r.w.gate = gate
+			go r.offerLine(auditgen.Simple("USER_ACCT", 1700000031, 3051, "8", "4343", "success").Recs[0].Line + "\n")
+			vsleep(4 * time.Second)
+			gate <- nil
+			vsleep(time.Second)
+			if rest := 126*time.Second - time.Since(t0); rest > 0 {
+				vsleep(rest)
+			}
+			gap := time.Since(t0)
+			if first == "login" {
+				for _, l := range sessLines {
+					r.offerLine(l + "\n")
+				}
+			} else {
+				lg.Source.LoggedAt = time.Now()
+				r.offerLogin(lg)
+			}
+			r.offerLine(auditgen.Simple("USER_END", 1700000023, 3003, "7", "4242", "success").Recs[0].Line + "\n")
+			vsleep(200 * time.Second)
+			evs, _ := r.w.events()
+			if r.returned {
+				msg = fmt.Sprintf("the processor stopped: %v", r.ret)
+				return
+			}
+			late := 0
+			for _, e := range evs {
+				if e.Metadata.AuditID == "7" {
+					late++
+				}
+			}
+			if late != 0 {
+				msg = fmt.Sprintf("an event of another session was being written while the cleanup at t=120 s was due; halves %v apart: %d events of the session were emitted; more than two minutes apart nothing may be", gap.Round(time.Second), late)
+			}
+		})
+		if msg != "" {
+			run.Violation(fmt.Sprintf("C16:wiring:%s-first:event-write-in-progress-at-a-cleanup-instant", first), map[string]any{"first": first}, msg)
+		}
+	}
 	cov := mc.Coverage{Level: "model_checking", States: n, Transitions: n * 8, Traces: n, Evaluations: n, Distinct: dropped, Exhaustive: true, Samples: samples,
-		Rule:  "the real Auditd.Read under testing/synctest's virtual clock: first half in {login, LOGIN record + 2 events, the same session producing a further event every 20 s, login / session with unrelated logins arriving every 20 s meanwhile} x phase of its arrival within the cleanup period x gap to the second half, then two probe events; gap < 60 s must correlate (5 events), gap > 120 s must emit nothing ever; 60..120 s unjudged; plus 4 cells in which the loop itself is stalled (its write to the events output blocks while another session is flushed) for 72 s / 200 s across a cleanup instant and the second half arrives >= 126 s after the first. distinct_nontrivial = cells in which the pending half must have been discarded",
+		Rule:  "the real Auditd.Read under testing/synctest's virtual clock: first half in {login, LOGIN record + 2 events, the same session producing a further event every 20 s, login / session with unrelated logins arriving every 20 s meanwhile} x phase of its arrival within the cleanup period x gap to the second half, then two probe events; gap < 60 s must correlate (5 events), gap > 120 s must emit nothing ever; 60..120 s unjudged; plus 4 cells in which the loop itself is stalled (its write to the events output blocks while another session is flushed) for 72 s / 200 s across a cleanup instant and the second half arrives >= 126 s after the first; plus 2 cells in which another session's event is in the middle of its write (4 s) when a cleanup is due. distinct_nontrivial = cells in which the pending half must have been discarded",
 		Extra: map[string]any{"phases_s": len(phases), "gaps": len(gaps)}}
 	cov.Assumptions = []string{"virtual clock of testing/synctest"}
 	return run.Finish(cov)
